@@ -52,6 +52,9 @@ class Harness:
         self.panics = opts.get("panics", "check")
         self.replay = opts.get("replay", "yes") != "no"
         self.finding = opts.get("finding")
+        # termination obligations: the unwind bound is far above the theoretical maximum, so a failed
+        # unwinding assertion means "does not terminate", not "bound too small"
+        self.unwind_fail_refutes = opts.get("termination", "no") == "yes"
         self.note = opts.get("note", "")
         self.uses = [u.strip() for u in opts.get("uses", "").split(",") if u.strip()]
         self.body = body
